@@ -187,3 +187,24 @@ CHECKS["C16"] = dict(
         dict(name="discovery-realrun", test="TestDiscoveryRealRun", kind="rapid", checks={"quick": 4, "thorough": 60}, shards=8, timeout={"quick": 900, "thorough": 3000}, shrinktime="60s"),
     ],
 )
+
+CHECKS["C03"] = dict(
+    pkg="c03", level="exploration",
+    engine="sim: simulated Redis Cluster + reference keyspace executor; real proxy through proc.New",
+    rule=("rapid-generated cases: a slot layout (1..6 masters, 0..2 replicas each; contiguous, striped, every-slot-random or random-range "
+          "tables), 1..4 client connections with disjoint key pools (plain keys, hash tags incl. '{}' and nested braces, binary keys with "
+          "CR/LF/NUL), per connection a program of 1..60 commands over ~60 executor-implemented commands (strings, hashes, lists, sets, "
+          "sorted sets, TTL family, MGET/MSET/DEL/EXISTS/TOUCH/UNLINK over several nodes, same-tag multi-key commands, EVAL), every other "
+          "forwarded command name through a digest rule, wrong arities, PING/SELECT/TIME/INFO, names in mixed letter case, values "
+          "0..64 KiB (thorough: up to 3 MiB) incl. CR/LF/NUL; programs are sent synchronously or pipelined. Oracles: (i) every reply "
+          "equals the reference keyspace's reply, split commands being defined as their per-key commands combined in argument order, "
+          "errors compared as errors; (ii) the multiset of commands logged by the simulated nodes equals exactly the expected per-key "
+          "commands with byte-identical arguments, (iii) each at the node owning ref.Slot(key) (independent CRC16 + tag rule), and no "
+          "MOVED/ASK was issued after the first successful table load. Non-trivial: a split command spans >= 2 nodes, or a key/value "
+          "contains CR/LF/NUL/braces, or a value >= 8 KiB, or >= 2 connections. Distinct by canonical JSON of the case."),
+    assumptions=["commands handled only by the digest rule are checked for transport and routing, not for Redis semantics (the proxy does not interpret them either)",
+                 "the simulator implements the cluster rules of the Redis Cluster specification that the proxy depends on; connections use disjoint key pools"],
+    parts=[
+        dict(name="stable", test="TestStable", kind="rapid", checks={"quick": 150, "thorough": 4000}, shards=16, timeout={"quick": 900, "thorough": 3400}, shrinktime="60s", gomaxprocs=4),
+    ],
+)
